@@ -135,7 +135,13 @@ def build_fixtures(scratch, rng):
     fx.append(Fixture("sample.vdif", lambda: pb.readers.BasebandReader(sv), [sv], {}, "bb", {}))
     fx.append(Fixture("sample.vdif/lsb", lambda: pb.readers.BasebandReader(sv, lower_sideband=True), [sv], {}, "bb", {"lsb": True}))
     mask = (np.arange(8) % 3).astype(bool)
-    fx.append(Fixture("sample.vdif/mask", lambda: pb.readers.BasebandReader(sv, lower_sideband=mask), [sv], {}, "bb", {"lsb": mask}))
+    def mask_reader():
+        # the caller goes on using (and overwriting) the array it passed: the reader must keep the flags it was created with
+        arg = mask.copy()
+        r = pb.readers.BasebandReader(sv, lower_sideband=arg)
+        arg[:] = ~arg
+        return r
+    fx.append(Fixture("sample.vdif/mask", mask_reader, [sv], {}, "bb", {"lsb": mask}))
     fx.append(Fixture("sample.vdif/nosqueeze", lambda: pb.readers.BasebandReader(sv, squeeze=False), [sv], {"squeeze": False}, "bb", {}))
     fx.append(Fixture("sample.vdif/intensity",
                       lambda: pb.readers.BasebandReader(sv, signal_type=pb.IntensitySignal,
